@@ -51,11 +51,13 @@ def cells(tier):
         out.append((channel, "none", "none"))           # a scenario without overrides reproduces the model
         out.append((channel, "constant-zero", "both"))  # an override whose value is falsy (0.0) must still win over the base value
     if tier == "thorough":
-        for channel in ("register", "session", "rest_run", "rest_rerun"):
-            out.append((channel, "constant+points", "both"))
-            out.append((channel, "constant+dt", "scenario"))
-            out.append((channel, "points+starttime", "scenario"))
-            out.append((channel, "starttime+stoptime+dt", "scenario"))
+        import itertools
+        names = ["constant", "points", "starttime", "stoptime", "dt"]
+        for channel in ("register", "session", "rest_run", "rest_rerun", "rest_session"):
+            for r in (2, 3, 4, 5):
+                for combo in itertools.combinations(names, r):
+                    for level in (("both", "scenario") if ("constant" in combo or "points" in combo) else ("scenario",)):
+                        out.append((channel, "+".join(combo), level))
     return out
 
 
